@@ -89,6 +89,13 @@ PROPS.update({
         "rule": "worlds: a configuration file (written per run, loaded by the real config loader) with one shared task (1..3 env names, 1..3 variables used as argv, optional dir) and 2..4 (thorough 6) stages overriding random subsets of env/variables/dir, arranged parallel / chained / mixed, optionally a second pipeline and a direct run of the task in the same process, drivers run in sequence. Schedule space: order in which stage goroutines parked at goroutine start and at Run entry proceed, and process completion order. Oracle at every exec: each namespaced env name, variable (argv) and dir == this stage's override, else the task's own value; a leaking value is attributed to the stage it came from. distinct = canonical event-log hash; all runs non-trivial (every world has >=2 users of the task)",
         "assumptions": _INTEG_ASSUME + ["names live in a namespace no other level defines, so no other layering rule is involved", "execs are attributed to stages by goroutine id"],
     },
+    "C19": {
+        "level": "exploration",
+        "cross_outcome": True,
+        "parts": [{"engine": "fault", "profile": "c19", "weight": 1}],
+        "rule": "worlds: 1..5 (thorough 8) tasks, each one simulated process writing a seeded stream (lines of 0..10000 bytes, LF / CRLF / lone CR, well-formed CSI sequences, unicode, digits and brackets next to sequences, unterminated tail) cut into write calls at seeded points (also inside CRLF, a CSI sequence or a rune), a share of chunks on stderr; chunk writes of different tasks interleaved one at a time by the controller; task outcomes success / failure / skipped / failing before-hook; every world is run under raw, prefixed and cockpit (index mod 3). Oracles: raw sink == chunks in delivery order; prefixed: every sink write is one whole line carrying the name of the task whose chunk is being delivered, per-task payload == stream after removing terminators and CSI sequences; result fields equal across the three formats; no crash. distinct = canonical event-log hash; all runs non-trivial",
+        "assumptions": _INTEG_ASSUME + ["hooks print nothing in these worlds (their output bypasses the decorator by design)", "races inside briandowns/spinner are out of reach (its goroutine only runs between controller steps)"],
+    },
     "C14": {
         "level": "exploration",
         "parts": [{"engine": "fault", "profile": "c14", "weight": 1}],
@@ -119,6 +126,7 @@ _TXT.update({
     "C11": ("exploration", "Byte-exact comparison of captured output with what the simulated processes wrote, and of the environment every dependant's commands actually receive, across DAG positions and completion orders.", "only direct dependants are constrained; values travel through the real env/interpreter path"),
     "C12": ("fault_enumeration", "Cancel is injected at every step index of each sampled run (plus before the run, after it, twice, via a condition error); rules: process survives, Cancel returns, run returns, running commands interrupted, nothing starts after Cancel returned, no interrupted/unstarted task reports success.", "enumeration is over controller steps of sampled worlds and schedules, not over all worlds"),
     "C08": ("exploration", "Real config loader + scheduler + runner over one shared task object; what every simulated process actually receives (env, argv, dir) is compared with 'task settings overlaid by this stage's overrides' for overlapping and sequential stages, a second pipeline and a direct run.", "sampled configurations and schedules"),
+    "C19": ("exploration", "The real decorators and TaskOutput tee receive seeded streams in seeded chunkings from up to 8 interleaved simulated processes; the recording sink is compared with a stripping model write by write; each world is repeated under the three formats and the recorded task results must agree; a panic in the output layer kills the worker and is attributed to the seed.", "reference CSI stripper covers the generated well-formed sequences only; comparison uses the reading most favourable to the implementation (terminators removed before sequences)"),
     "C14": ("exploration", "Hook exec history per context compared with the statement: up once and finished before anything else of the context (also for tasks racing into Up while it runs), before/after exactly once around each task execution (per-goroutine pattern), down once at Finish for used contexts only.", "sampled worlds and schedules; CLI part (Finish on failed targets) covered by the CLI profile"),
     "C13": ("fault_enumeration", "The overrunning command is placed at every position of each sampled task under six process shapes; deadlines are compared exactly on the fake clock (start+timeout per command).", "positions x shapes are enumerated per sampled task; tasks and timeouts are sampled"),
 })
@@ -134,7 +142,6 @@ NOT_APPLICABLE = [
     {"property_id": "C16", "reason": "format equivalence of three decoders is pure"},
     {"property_id": "C17", "reason": "import closure is a pure function of a directory tree; termination is recursion on a finite structure, not a schedule"},
     {"property_id": "C18", "reason": "load-time reference validation is pure; needs malformed inputs, not schedules or faults"},
-    {"property_id": "C19", "reason": "TEMPORARY: INTEG engine under construction (claimed in DESIGN.md)"},
     {"property_id": "C20", "reason": "TEMPORARY: WATCH engine under construction (claimed in DESIGN.md)"},
 ]
 
